@@ -82,12 +82,18 @@ class OtherM(MetadataSchema):
     o: T.Bool
 
 
+class BadSubM(BaseM):
+    """A nested schema that itself widens an inherited field without declaring it (must be refused wherever used)."""
+
+    b: Union[T.Int, T.Str]
+
+
 SING = {
     "Bool": T.Bool, "Int": T.Int, "Float": T.Float, "Str": T.Str, "NonEmptyStr": T.NonEmptyStr, "NarrowStr": NarrowStr,
     "MimeTypeStr": T.MimeTypeStr, "HashsumStr": T.HashsumStr, "QualHashsumStr": T.QualHashsumStr,
     "NonNegativeInt": NonNegativeInt, "PositiveFloat": PositiveFloat,
     "Lit_a": Literal["a"], "Lit_ab": Literal["a", "b"], "Lit_1": Literal[1], "Lit_a1": Literal["a", 1],
-    "BaseM": BaseM, "SubM": SubM, "OtherM": OtherM,
+    "BaseM": BaseM, "SubM": SubM, "OtherM": OtherM, "BadSubM": BadSubM,
 }
 HASHABLE = ["Int", "Str", "NonEmptyStr", "NarrowStr", "Lit_a", "Lit_ab", "Bool"]
 UNIONS = [("Int", "Str"), ("Int", "Float"), ("NonEmptyStr", "Int"), ("Lit_a", "Int"), ("BaseM", "Int"), ("SubM", "Int"),
@@ -109,7 +115,8 @@ def pool():
 
 CORPUS = [None, True, False, 0, 1, -1, 7, 2 ** 40, 0.0, 1.0, -1.5, 0.5, "", " ", "a", "b", "abc", "Abc", " a ", "a b", "text/plain",
           "abc123", "sha256:abc123", "zz", 1.5, [], [1], ["a"], ["a", "a"], [True], [1.0], [None], ["abc", 1], [[]], {}, {"b": 1},
-          {"b": 1, "s": "x"}, {"o": True}, [{"b": 1}], [{"b": 1, "s": "x"}], [{}], {"b": "1"}, "1", [0, 1], ["A"], "text/plain;x"]
+          {"b": 1, "s": "x"}, {"o": True}, [{"b": 1}], [{"b": 1, "s": "x"}], [{}], {"b": "1"}, "1", [0, 1], ["A"], "text/plain;x",
+          {"b": "text"}, [{"b": "text"}]]
 
 SHAPES = ["direct", "direct_override", "middle", "middle_override", "mandatory_then", "forbid_parent"]
 
